@@ -67,6 +67,11 @@ CHECKS.update({
    text="Bounded enumeration: for each function and each generated argument list on which the concrete call succeeds, every single-position weakening (top level or nested, refinement menu true of the replaced part) and a thin two-position family are executed; TLC judges NoNewFailure, ResultAdmits, KnownInKnownOut and purity of the weakened call.",
    design_ref="DESIGN.md section 4 C12",
    note="One known finding (setproduct lower length bound) is listed in KNOWN_FINDINGS.txt. Typed unknowns only. Trusted: harness projection, TLC."),
+ "C13": dict(
+   technique="TLA+ reference semantics (StdlibRef: value, type and reject conditions over sequences/functions/sets); TLC-enumerated domain-shaped and signature-derived argument lists replayed into the real functions; TLC trace validation against the reference",
+   text="Bounded-exhaustive per function: TLC enumerates wholly known argument lists shaped for each function's domain and its edges (negative, fractional, out-of-range and infinite indices, sizes and steps; empty collections, duplicates, nulls, list/tuple and map/object forms) and compares every real result with the TLA+ reference (exact value and type, failure exactly where the reference rejects).",
+   design_ref="DESIGN.md section 4 C13",
+   note="flatten and setproduct, and argument lists needing type unification, are outside the reference (not judged). Trusted: harness projection, TLC."),
 })
 
 NOT_APPLICABLE = {}
